@@ -159,6 +159,7 @@ pub struct Stats {
     pub sets: BTreeMap<String, HashSet<u64>>,
     /// set while proptest shrinks: counters stop
     pub frozen: bool,
+    sample_next: u64,
 }
 
 impl Stats {
@@ -198,10 +199,9 @@ impl Stats {
         if self.frozen {
             return;
         }
-        let n = self.evaluations;
-        let want = matches!(n, 1 | 2 | 17 | 131 | 977 | 4001);
-        if want && self.samples.len() < 6 {
+        if self.evaluations >= self.sample_next && self.samples.len() < 5 {
             self.samples.push(make());
+            self.sample_next = self.evaluations.max(1) * 7;
         }
     }
     pub fn merge(&mut self, o: Stats) {
@@ -316,13 +316,18 @@ impl Ctx {
             } else if let Some(sv) = &self.survey {
                 if !stats.frozen {
                     let pick = |p: &str| f.tags.iter().filter(|t| t.starts_with(p)).cloned().collect::<Vec<_>>().join(",");
-                    let key = format!("{} | {} | {} | {}", f.kind, pick("site="), pick("mode="), pick("render="));
+                    let groups = std::env::var("TTGV_SURVEY").unwrap_or_default();
+                    let mut key = f.kind.clone();
+                    for g in groups.split(',').filter(|g| !g.is_empty() && *g != "1") {
+                        key.push_str(" | ");
+                        key.push_str(&pick(g));
+                    }
                     let mut m = sv.lock().unwrap();
                     let e = m.entry(key).or_insert((0, vec![]));
                     e.0 += 1;
                     e.1.push(f);
                     e.1.sort_by_key(|x| x.case.to_string().len());
-                    e.1.truncate(6);
+                    e.1.truncate(2);
                 }
             } else {
                 unknown.push(f);
